@@ -21,6 +21,53 @@ def calls_of(ps):
     return [p for p in ps if p["kind"] == "call" and not p["eff"].get("noreturn")]
 
 
+def check_blind_rotate(chk, v, suffix, rule):
+    vn = v.name
+    h = v.fn("tfhe_blindRotate" + suffix)
+    hacc, hbk, hbara, hn, hpar = [p["n"] for p in h.params]
+    hps, heff = summ.pieces(v, h, hooks=NOINLINE)
+    hcs = calls_of(hps)
+    mux = [c for c in hcs if c["name"] == "tfhe_MuxRotate" + suffix]
+    problems = []
+    if any(p["kind"] in ("while", "unknown") for p in hps):
+        problems.append("the rotation loop is not a canonical counted loop")
+    if len(mux) != 1 or len(mux[0]["loops"]) != 1 or "var" not in mux[0]["loops"][0]:
+        problems.append("expected one CMux call inside one counted loop")
+    else:
+        lp = mux[0]["loops"][0]
+        i = lp["var"]
+        if (lp["lo"], lp["cmp"], lp["hi"]) != (ZERO, "<", sym.sym(hn)):
+            problems.append("rotation loop covers [%s %s %s), expected [0,n)" % (sym.show(lp["lo"]), lp["cmp"], sym.show(lp["hi"])))
+        ma = mux[0]["args"]
+        barai = sym.idx(sym.sym(hbara), i)
+        if ma[3] != barai or ma[2] != sym.padd(sym.sym(hbk), i):
+            problems.append("step i uses exponent %s and key row %s; expected bara[i], bk+i" % (sym.show(ma[3]), sym.show(ma[2])))
+        gd = mux[0]["guards"]
+        if gd != [sym.unop("!", sym.binop("==", barai, ZERO))] and gd != [sym.binop("!=", barai, ZERO)]:
+            problems.append("the step is guarded by %s, expected only 'bara[i] != 0'" % [sym.show(t) for t in gd])
+        # ping-pong: destination and source are the two buffers, swapped exactly when a step ran; copy back when needed
+        d, s_ = ma[0], ma[1]
+        swaps = [p for p in hps if p["kind"] == "store" and p.get("loops") and p["lv"] in (d, s_) and p["val"] in (d, s_) and p["lv"] != p["val"]]
+        if d[0] != "var" or s_[0] != "var" or len(swaps) != 2:
+            problems.append("ping-pong buffers are not swapped after each step")
+        elif any(sw["guards"] != gd for sw in swaps):
+            problems.append("the buffers are swapped under %s but the step runs under %s: a skipped step (bara[i] = 0) still swaps, so the "
+                            "current accumulator pointer designates a stale buffer" % ([sym.show(t) for t in swaps[0]["guards"]], [sym.show(t) for t in gd]))
+        elif any(sw["line"] < mux[0]["line"] for sw in swaps) and not any(sw.get("stack") for sw in swaps):
+            problems.append("the buffers are swapped before the step")
+        inits = {p["lv"]: p["val"] for p in hps if p["kind"] == "store" and not p["loops"] and p["lv"] in (d, s_)}
+        if inits.get(s_) != sym.sym(hacc) or inits.get(d) is None or inits.get(d)[0] != "obj":
+            problems.append("buffers start as %s: expected source = accum, destination = a fresh sample" % {
+                sym.show(k): sym.show(val)[:30] for k, val in inits.items()})
+        cb = [c for c in hcs if c["name"] == "tLweCopy"]
+        if len(cb) != 1 or cb[0]["args"][:2] != [sym.sym(hacc), s_] or \
+                cb[0]["guards"] not in ([sym.binop("!=", s_, sym.sym(hacc))], [("op", "!=", s_, sym.sym(hacc))]):
+            problems.append("the result is not copied back to accum exactly when the last source buffer is not accum")
+    chk.require(not problems, rule, "%s: every i in [0,n) with bara_i != 0 applies CMux(bk_i, X^bara_i) with ping-pong buffers" % h.name,
+                where=h.where, ok="for i in [0,n): if bara[i] != 0: MuxRotate(temp2, temp3, bk+i, bara[i]); swap; copy back iff temp3 != accum",
+                bad="; ".join(problems), variant=vn)
+
+
 def run(chk):
     prog = Program()
     chk.explanation = (
@@ -82,9 +129,17 @@ def run(chk):
             tv = [p for p in stores if p["loops"] and p["val"] == sym.sym(mu)]
             ok6 = len(tv) == 1 and (tv[0]["loops"][0]["lo"], tv[0]["loops"][0]["cmp"], tv[0]["loops"][0]["hi"]) == (ZERO, "<", N) and \
                 tv[0]["lv"][0] == "idx" and tv[0]["lv"][2] == tv[0]["loops"][0]["var"] and sym.show(a[1]) in sym.show(tv[0]["lv"][1])
-            chk.require(ok6, "R6", "%s: the test vector holds mu in all N coefficients" % f.name, where=f.where,
-                        ok="testvect->coefsT[i] = mu over [0,N), passed as v", bad="statements: %s" % [summ.show_piece(p)[:100] for p in tv],
-                        variant=vn)
+            why6 = "statements: %s" % [summ.show_piece(p)[:100] for p in tv]
+            if ok6 and tv[0]["guards"]:
+                ok6 = False
+                why6 = "the test vector is filled only when %s: a later call with another mu reuses the old contents" % (
+                    " && ".join(sym.show(g) for g in tv[0]["guards"]))
+            if ok6 and not (tv[0]["line"] < br[0]["line"]):
+                ok6, why6 = False, "the test vector is filled after it is used"
+            if ok6 and sym.root_of(a[1]) is not None and sym.root_of(a[1])[0] == "glob":
+                ok6, why6 = False, "the test vector %s is a static object shared between calls" % sym.show(a[1])
+            chk.require(ok6, "R6", "%s: the test vector holds mu in all N coefficients on every call" % f.name, where=f.where,
+                        ok="testvect->coefsT[i] = mu over [0,N), unconditionally, passed as v", bad=why6, variant=vn)
             ok_args = a[0] == sym.sym(res) and a[6] == P(bk, "bk_params")
             # ---------------- blindRotateAndExtract: R3a, R4
             g = v.fn("tfhe_blindRotateAndExtract" + suffix)
@@ -130,44 +185,7 @@ def run(chk):
                         where=g.where, ok="MulByXai(2N - barb) | Copy; trivial accumulator; blindRotate(acc, bk, bara, n); extract",
                         bad="; ".join(problems), variant=vn)
             # ---------------- blindRotate: R3b
-            h = v.fn("tfhe_blindRotate" + suffix)
-            hacc, hbk, hbara, hn, hpar = [p["n"] for p in h.params]
-            hps, heff = summ.pieces(v, h, hooks=NOINLINE)
-            hcs = calls_of(hps)
-            mux = [c for c in hcs if c["name"] == "tfhe_MuxRotate" + suffix]
-            problems = []
-            if len(mux) != 1 or len(mux[0]["loops"]) != 1:
-                problems.append("expected one CMux call inside one loop")
-            else:
-                lp = mux[0]["loops"][0]
-                i = lp["var"]
-                if (lp["lo"], lp["cmp"], lp["hi"]) != (ZERO, "<", sym.sym(hn)):
-                    problems.append("rotation loop covers [%s %s %s), expected [0,n)" % (sym.show(lp["lo"]), lp["cmp"], sym.show(lp["hi"])))
-                ma = mux[0]["args"]
-                barai = sym.idx(sym.sym(hbara), i)
-                if ma[3] != barai or ma[2] != sym.padd(sym.sym(hbk), i):
-                    problems.append("step i uses exponent %s and key row %s; expected bara[i], bk+i" % (sym.show(ma[3]), sym.show(ma[2])))
-                # skipped only when bara_i == 0
-                skips = [p for p in hps if p["kind"] == "local" and False]
-                gd = mux[0]["guards"]
-                if gd != [sym.unop("!", sym.binop("==", barai, ZERO))] and gd != [sym.binop("!=", barai, ZERO)]:
-                    problems.append("the step is guarded by %s, expected only 'bara[i] != 0'" % [sym.show(t) for t in gd])
-                # ping-pong: destination and source are the two buffers, swapped after each step; copy back when needed
-                d, s_ = ma[0], ma[1]
-                swaps = [p for p in hps if p["kind"] == "store" and p.get("loops") and p["lv"] in (d, s_) and p["val"] in (d, s_) and p["lv"] != p["val"]]
-                if d[0] != "var" or s_[0] != "var" or len(swaps) != 2:
-                    problems.append("ping-pong buffers are not swapped after each step")
-                inits = {p["lv"]: p["val"] for p in hps if p["kind"] == "store" and not p["loops"] and p["lv"] in (d, s_)}
-                if inits.get(s_) != sym.sym(hacc) or inits.get(d) is None or inits.get(d)[0] != "obj":
-                    problems.append("buffers start as %s: expected source = accum, destination = a fresh sample" % {
-                        sym.show(k): sym.show(val)[:30] for k, val in inits.items()})
-                cb = [c for c in hcs if c["name"] == "tLweCopy"]
-                if len(cb) != 1 or cb[0]["args"][:2] != [sym.sym(hacc), s_] or \
-                        cb[0]["guards"] not in ([sym.binop("!=", s_, sym.sym(hacc))], [("op", "!=", s_, sym.sym(hacc))]):
-                    problems.append("the result is not copied back to accum exactly when the last source buffer is not accum")
-            chk.require(not problems, "R3", "%s: every i in [0,n) with bara_i != 0 applies CMux(bk_i, X^bara_i) with ping-pong buffers" % h.name,
-                        where=h.where, ok="for i in [0,n): if bara[i] != 0: MuxRotate(temp2, temp3, bk+i, bara[i]); swap; copy back iff temp3 != accum",
-                        bad="; ".join(problems), variant=vn)
+            check_blind_rotate(chk, v, suffix, "R3")
             # ---------------- bootstrap: R7
             b = v.fn("tfhe_bootstrap" + suffix)
             bres, bbk, bmu, bx = [p["n"] for p in b.params]
